@@ -175,7 +175,8 @@ fn paddings(thorough: bool) -> &'static Vec<(String, String)> {
                 for d in 0..=4usize {
                     // the text starts 3, 2, 1, 0 characters (bytes) before the boundary, or 1 behind it
                     for n in [b + 1 - d, (b + 1 - d) / w] {
-                        if seen.insert((unit, n)) {
+                        // (stay inside the documented input limit of 49149 bytes, with room for the text)
+                        if unit.len() * n <= 49000 && seen.insert((unit, n)) {
                             out.push((format!("{} x {}", unit, n), unit.repeat(n)));
                         }
                     }
